@@ -28,6 +28,9 @@ class G:
         return ("bin", op, self.expr(d - 1, allow_call), self.expr(d - 1, allow_call))
     def cond(self):
         r = self.rng
+        if r.random() < 0.2:
+            # a plain number as the condition: every value other than 0 (negative ones too) counts as true
+            return r.choice([("bin", 4, self.expr(1, False), self.expr(1, False)), ("bin", 4, ("lit", r.randint(0, 3)), ("lit", r.randint(0, 6))), self.expr(1, False)])
         op = r.choice([5, 6, 7, 8, 9, 10])
         c = ("bin", op, self.expr(1, False), self.expr(1, False))
         if r.random() < 0.2: c = ("bin", r.choice([11, 12]), c, ("bin", r.choice([7, 9]), self.expr(1, False), self.expr(0)))
